@@ -129,6 +129,14 @@ def cmd_check(prop: str, tier: str) -> int:
         sub = shards0[seed % k::k] or shards0[:1]
         plan.append((dict(cfg0, ambient=ambient), sub))
         amb_shards = len(sub)
+    # ... and with the pure-Python helper back end when the module's own plan never selects it in this tier
+    swap_shards = 0
+    if getattr(mod, "BACKEND_SWAP", True) and all(cfg.get("ext", 1) for cfg, _ in plan):
+        k = 3 if tier == "thorough" else 6
+        cfg0, shards0 = plan[0]
+        sub = shards0[(seed + 3) % k::k] or shards0[:1]
+        plan.append((dict(cfg0, ext=0), sub))
+        swap_shards = len(sub)
     need_ext = any(cfg.get("ext", 1) for cfg, _ in plan)
     try:
         so = buildext.ensure(repo_path()) if need_ext else None
@@ -204,6 +212,8 @@ def cmd_check(prop: str, tier: str) -> int:
     cov = ev["coverage"]
     cov.setdefault("samples", merged.samples[:8] or ["<none>"])
     cov["outcome_classes"] = dict(merged.outcomes)
+    if swap_shards:
+        cov["python_backend_repeat"] = {"shards_repeated": swap_shards, "of_first_configuration": len(plan[0][1])}
     if ambient:
         cov["ambient_configuration"] = {"settings": ambient, "shards_repeated": amb_shards,
                                         "of_first_configuration": len(plan[0][1])}
